@@ -368,6 +368,51 @@ fn builtin_batch() -> Batch {
     Batch { ctx, sources, trees }
 }
 
+/// Same builtin, many different arguments: with staggered offsets different threads are inside the
+/// same builtin with different arguments at the same instant (a shared memo, cache or scratch
+/// buffer behind a builtin or a numeric primitive shows up as a wrong value here).
+fn contention_batch() -> Batch {
+    let mut sources = Vec::new();
+    let floats = ["0.1", "0.25", "0.5", "0.75", "1.5", "2.5", "3.25", "7.125", "10.5", "100.25", "0.001", "12345.678"];
+    let ints = ["1", "2", "3", "5", "7", "11", "13", "17", "19", "23", "29", "31"];
+    let strs = ["\"a\"", "\"Ab\"", "\"abC\"", "\"  x \"", "\"äÖ\"", "\"hello\"", "\"W\"", "\"zz z\"", "\"Q\"", "\"mixed Case\"", "\"1\"", "\"\""];
+    for name in refmodel::builtins::BUILTINS {
+        for k in 0..12 {
+            let src = match name {
+                "math::log" | "math::pow" | "math::atan2" | "math::hypot" => format!("{}({}, {})", name, floats[k], floats[(k + 5) % 12]),
+                "bitand" | "bitor" | "bitxor" | "shl" | "shr" => format!("{}({}, {})", name, ints[k], ints[(k + 5) % 12]),
+                "min" | "max" => format!("{}({}, {}, {})", name, floats[k], ints[k], floats[(k + 3) % 12]),
+                "if" => format!("if({}, {}, {})", if k % 2 == 0 { "true" } else { "false" }, floats[k], strs[k]),
+                "contains" => format!("contains(({}, {}, {}), {})", ints[k], strs[k], floats[k], ints[(k + k % 2) % 12]),
+                "contains_any" => format!("contains_any(({}, {}), ({}, {}))", ints[k], strs[k], ints[(k + 1) % 12], strs[(k + k % 2) % 12]),
+                "len" | "str::to_lowercase" | "str::to_uppercase" | "str::trim" => format!("{}({})", name, strs[k]),
+                "str::substring" => format!("str::substring({}, 0, len({}))", strs[k], strs[k]),
+                "str::from" | "typeof" => format!("{}({}, {}, {})", name, floats[k], strs[k], ints[k]),
+                "bitnot" | "math::abs" => format!("{}(0 - {})", name, ints[k]),
+                "random" => continue,
+                _ => format!("{}({})", name, floats[k]),
+            };
+            sources.push(src);
+        }
+        // two different arguments of the same builtin inside one expression
+        if matches!(name, "math::sin" | "math::cos" | "math::exp" | "math::ln" | "math::sqrt" | "floor" | "round" | "math::cbrt") {
+            for k in 0..12 {
+                sources.push(format!("({}({}), {}({}))", name, floats[k], name, floats[(k + 7) % 12]));
+            }
+        }
+    }
+    let ctx = Ctx::hashmap();
+    let mut kept = Vec::new();
+    let mut trees = Vec::new();
+    for s in sources {
+        if let Ok(t) = evalexpr::build_operator_tree::<DefaultNumericTypes>(&s) {
+            kept.push(s);
+            trees.push(t);
+        }
+    }
+    Batch { ctx, sources: kept, trees }
+}
+
 fn run(rep: &Report) {
     rep.set_rule(
         "compile-time half: this check's own code shares &Node, &Value, &EvalexprError, &Function, &Operator, \
@@ -377,7 +422,7 @@ fn run(rep: &Report) {
          all value types) with one shared context, evaluated K times from T in {2,4,8,16} threads released by a \
          barrier with staggered offsets (scoped borrows and Arc), results / cloned trees / operators moved back \
          through a channel; the first evaluation of freshly built trees happens concurrently (the oracle's results come \
-         from other instances); one batch calls all 49 builtins through one shared context; plus a rendezvous phase in which a harness-owned user function holds 16 / 48 / 64 threads \
+         from other instances); one batch calls all 49 builtins through one shared context; a contention batch calls every builtin with 12 different arguments (and the same unary math builtin twice inside one expression) so that staggered threads are inside the same builtin with different arguments at once; plus a rendezvous phase in which a harness-owned user function holds 16 / 48 / 64 threads \
          inside a function call at the same instant (the one point where the harness owns the schedule), also at the innermost point of a 2500-deep expression and inside a 60,000-element tuple; oracle: the \
          sequential result computed beforehand, bit-exact. Non-trivial: distinct \
          (program, context) that reads a shared variable or calls a shared function, run on >= 4 threads.",
@@ -419,6 +464,15 @@ fn run(rep: &Report) {
         }
     }
     l.label("all-builtins batch");
+    // the same builtin with many different arguments, from staggered threads
+    let cb = contention_batch();
+    rep.add_extra("contention_batch_sources", json!(cb.sources.len()));
+    for threads in [8usize, 16] {
+        for _ in 0..rep.tier.pick(2, 20) {
+            check_batch(rep, &cb, threads, rep.tier.pick(60, 300), &mut l);
+        }
+    }
+    l.label("same-builtin contention batch");
     rep.merge(l);
 }
 
